@@ -115,22 +115,22 @@ fn c05_pay_gas_and_call_contract() {
     let hub: Option<String> = inst().pre(&DataKey::ItsHubAddress);
     match r {
         Ok(()) => {
-            assert!(trusted, "OBL C05.only_trusted_destination: a message is announced only toward a currently trusted destination chain");
+            soroban_sdk::obl!(trusted, "OBL C05.only_trusted_destination: a message is announced only toward a currently trusted destination chain");
             let expected = HubMessage::SendToHub { destination_chain: chain.clone(), message: message.clone() };
-            assert!(unsafe { ENCODED } == Some(words_of_hub(&expected)), "OBL C05.payload_is_send_to_hub_of_message: the payload is the encoding of SendToHub{this destination, exactly this message}");
+            soroban_sdk::obl!(unsafe { ENCODED } == Some(words_of_hub(&expected)), "OBL C05.payload_is_send_to_hub_of_message: the payload is the encoding of SendToHub{this destination, exactly this message}");
             let payload = spec_encoding(&expected);
-            assert!(
+            soroban_sdk::obl!(
                 matches!((&gateway, &gas, &hub), (Some(gw), Some(gs), Some(hb)) if shim::n_calls() == 2
                     && shim::called(gs, "pay_gas", &(me(&env), axelar(&env), hb.clone(), payload.clone(), caller.clone(), gas_token.clone(), Bytes::new(&env)))
                     && shim::called(gw, "call_contract", &(me(&env), axelar(&env), hb.clone(), payload.clone()))),
                 "OBL C05.gas_then_call_same_payload: exactly pay_gas(service, hub chain, hub address, payload, payer = caller, stated gas token) and call_contract(service, hub chain, hub address, the same payload), and no other call"
             );
-            assert!(no_storage_change() && shim::n_events() == 0 && shim::n_deploys() == 0, "OBL C05.routing_frame");
+            soroban_sdk::obl!(no_storage_change() && shim::n_events() == 0 && shim::n_deploys() == 0, "OBL C05.routing_frame");
             kani::cover!(matches!(message, Message::InterchainTransfer(_)), "COVER pgc ok transfer");
             kani::cover!(matches!(message, Message::DeployInterchainToken(_)), "COVER pgc ok deploy");
         }
         Err(_) => {
-            assert!(shim::no_effects(), "OBL C05.refused_routing_moves_nothing: no gas is charged and nothing is sent for an untrusted destination or an unencodable message");
+            soroban_sdk::obl!(shim::no_effects(), "OBL C05.refused_routing_moves_nothing: no gas is charged and nothing is sent for an untrusted destination or an unencodable message");
             kani::cover!(!trusted, "COVER pgc err untrusted");
         }
     }
@@ -153,25 +153,25 @@ fn c05_interchain_transfer() {
 
     let cfg: Option<TokenIdConfigValue> = pers().pre(&cfg_key(&token_id));
     if r.is_ok() {
-        assert!(amount > 0, "OBL C05.transfer_needs_positive_amount");
-        assert!(shim::authed(&caller), "OBL C07.interchain_transfer_needs_caller: tokens are taken from `caller` only under the caller's authorisation");
-        assert!(
+        soroban_sdk::obl!(amount > 0, "OBL C05.transfer_needs_positive_amount");
+        soroban_sdk::obl!(shim::authed(&caller), "OBL C07.interchain_transfer_needs_caller: tokens are taken from `caller` only under the caller's authorisation");
+        soroban_sdk::obl!(
             matches!(&cfg, Some(c) if match c.token_manager_type {
                 TokenManagerType::NativeInterchainToken => shim::called(&c.token_address, "burn", &(caller.clone(), amount)),
                 TokenManagerType::LockUnlock => shim::called(&c.token_address, "transfer", &(caller.clone(), me(&env), amount)),
             }),
             "OBL C05.takes_exact_amount_of_registered_token: exactly the stated amount is taken from the sender on the token registered under this id — burned (service-deployed) or moved into custody (canonical)"
         );
-        assert!(
+        soroban_sdk::obl!(
             shim::n_events() == 1 && shim::event_is(0, &(Symbol::new(&env, "interchain_transfer_sent"), token_id, caller.clone(), chain.clone(), dest.clone(), amount), &(data.clone(),)),
             "OBL C05.sent_event_exact"
         );
         let message = Message::InterchainTransfer(TTransfer { token_id, source_address: caller.clone().to_xdr(&env), destination_address: dest.clone(), amount, data: data.clone() });
-        assert!(
+        soroban_sdk::obl!(
             shim::n_calls() == 3 && pgc_called(&caller, &chain, &message, &gas_token) && unsafe { PGC_RESULT_OK },
             "OBL C05.announces_exactly_what_was_taken: the hub is told exactly this token id, amount, sender (xdr of the caller), destination and data, with the stated gas payment charged to the caller; one take, one announcement"
         );
-        assert!(no_storage_change() && shim::n_deploys() == 0, "OBL C05.transfer_frame");
+        soroban_sdk::obl!(no_storage_change() && shim::n_deploys() == 0, "OBL C05.transfer_frame");
         kani::cover!(matches!(&cfg, Some(c) if c.token_manager_type == TokenManagerType::LockUnlock), "COVER its transfer lock");
         kani::cover!(matches!(&cfg, Some(c) if c.token_manager_type == TokenManagerType::NativeInterchainToken), "COVER its transfer burn");
     } else {
@@ -208,15 +208,15 @@ fn c04_execute_entry() {
 
     let gateway: Option<Address> = inst().pre(&DataKey::Gateway);
     let ph: BytesN<32> = env.crypto().keccak256(&payload).into();
-    assert!(
+    soroban_sdk::obl!(
         matches!(&gateway, Some(g) if shim::n_calls() == 2 && shim::called(g, "validate_message", &(me(&env), sc.clone(), mid.clone(), sa.clone(), ph)) && shim::ret_of::<bool>(g, "validate_message")),
         "OBL C04.approval_consumed: the configured gateway consumed an approval of exactly (service, source chain, message id, source address, keccak256(payload)) — once"
     );
-    assert!(
+    soroban_sdk::obl!(
         shim::internal_called("execute_message", &(sc.clone(), mid.clone(), sa.clone(), payload.clone())) && unsafe { EM_RESULT_OK },
         "OBL C04.and_execute_message: the same delivery is handed to execute_message, whose failure fails the whole call"
     );
-    assert!(no_storage_change() && shim::n_events() == 0 && shim::n_deploys() == 0, "OBL C04.entry_frame");
+    soroban_sdk::obl!(no_storage_change() && shim::n_events() == 0 && shim::n_deploys() == 0, "OBL C04.entry_frame");
     kani::cover!(true, "COVER c04 entry returned");
 }
 
@@ -233,15 +233,15 @@ fn c04_get_execute_params() {
     shim::no_dangling_abstract_content();
 
     if let Ok((origin, message)) = r {
-        assert!(sc == axelar(&env), "OBL C04.from_hub_chain: the message comes from the hub chain");
-        assert!(matches!(unsafe { TYPE_OF }, Some((id, 4)) if id == payload.id), "OBL C04.receive_from_hub_only: the outer message type is ReceiveFromHub");
+        soroban_sdk::obl!(sc == axelar(&env), "OBL C04.from_hub_chain: the message comes from the hub chain");
+        soroban_sdk::obl!(matches!(unsafe { TYPE_OF }, Some((id, 4)) if id == payload.id), "OBL C04.receive_from_hub_only: the outer message type is ReceiveFromHub");
         let decoded = unsafe { DECODED.clone() };
-        assert!(
+        soroban_sdk::obl!(
             decoded == Some(HubMessage::ReceiveFromHub { source_chain: origin.clone(), message: message.clone() }),
             "OBL C04.params_are_the_decoded_message: origin chain and inner message are exactly what the strict decoder returned for this payload"
         );
-        assert!(pers().pre_has(&DataKey::TrustedChain(origin.clone())), "OBL C04.trusted_origin: the wrapped message names a currently trusted origin chain");
-        assert!(shim::no_effects(), "OBL C04.params_pure");
+        soroban_sdk::obl!(pers().pre_has(&DataKey::TrustedChain(origin.clone())), "OBL C04.trusted_origin: the wrapped message names a currently trusted origin chain");
+        soroban_sdk::obl!(shim::no_effects(), "OBL C04.params_pure");
         kani::cover!(matches!(message, Message::InterchainTransfer(_)), "COVER c04 params transfer");
         kani::cover!(matches!(message, Message::DeployInterchainToken(_)), "COVER c04 params deploy");
     }
@@ -287,40 +287,40 @@ fn c04_execute_message_transfer() {
 
     if r.is_ok() {
         let hub: Option<String> = inst().pre(&DataKey::ItsHubAddress);
-        assert!(shim::internal_called("get_execute_params", &(sc.clone(), payload.clone())), "OBL C04.params_from_this_delivery");
-        assert!(hub == Some(sa.clone()), "OBL C04.hub_address_checked: the message comes from the configured hub address");
+        soroban_sdk::obl!(shim::internal_called("get_execute_params", &(sc.clone(), payload.clone())), "OBL C04.params_from_this_delivery");
+        soroban_sdk::obl!(hub == Some(sa.clone()), "OBL C04.hub_address_checked: the message comes from the configured hub address");
         let (origin, message) = match unsafe { GEP_OUT.clone() } {
             Some(x) => x,
             None => (String { id: 0 }, symbolic_message()),
         };
-        assert!(unsafe { GEP_OUT.is_some() }, "OBL C04.only_validated_params");
+        soroban_sdk::obl!(unsafe { GEP_OUT.is_some() }, "OBL C04.only_validated_params");
         if let Message::InterchainTransfer(t) = message {
             let cfg: Option<TokenIdConfigValue> = pers().pre(&cfg_key(&t.token_id));
-            assert!(cfg.is_some(), "OBL C04.transfer_needs_registered_token");
+            soroban_sdk::obl!(cfg.is_some(), "OBL C04.transfer_needs_registered_token");
             let c = cfg.unwrap_or(TokenIdConfigValue { token_address: Address(0), token_manager_type: TokenManagerType::LockUnlock });
             let c1 = shim::call(1);
             let recipient = Address(c1.args.w[if c.token_manager_type == TokenManagerType::LockUnlock { 1 } else { 0 }]);
-            assert!(recipient.clone().to_xdr(&env) == t.destination_address, "OBL C04.recipient_is_decoded_destination: the credited address is the one whose XDR is the message's destination field");
-            assert!(
+            soroban_sdk::obl!(recipient.clone().to_xdr(&env) == t.destination_address, "OBL C04.recipient_is_decoded_destination: the credited address is the one whose XDR is the message's destination field");
+            soroban_sdk::obl!(
                 match c.token_manager_type {
                     TokenManagerType::NativeInterchainToken => shim::call_is(1, &c.token_address, "mint", &(recipient.clone(), t.amount)),
                     TokenManagerType::LockUnlock => shim::call_is(1, &c.token_address, "transfer", &(me(&env), recipient.clone(), t.amount)),
                 },
                 "OBL C05.inbound_credits_exact_amount: exactly the announced amount is minted (service-deployed token) or released from custody (canonical token) to the recipient, on the registered token"
             );
-            assert!(
+            soroban_sdk::obl!(
                 shim::n_events() == 1
                     && shim::event_is(0, &(Symbol::new(&env, "interchain_transfer_received"), origin.clone(), t.token_id, t.source_address.clone(), recipient.clone(), t.amount), &(t.data.clone(),)),
                 "OBL C04.received_event_exact"
             );
-            assert!(
+            soroban_sdk::obl!(
                 match &t.data {
                     None => shim::n_calls() == 2,
                     Some(d) => shim::n_calls() == 3 && shim::call_is(2, &recipient, "execute_with_interchain_token", &(origin.clone(), mid.clone(), t.source_address.clone(), d.clone(), t.token_id, c.token_address.clone(), t.amount)),
                 },
                 "OBL C04.one_effect_only: one credit; the recipient's callback only when data is present, with the same values; nothing else"
             );
-            assert!(no_storage_change() && shim::n_deploys() == 0, "OBL C04.transfer_arm_frame: no registration changes");
+            soroban_sdk::obl!(no_storage_change() && shim::n_deploys() == 0, "OBL C04.transfer_arm_frame: no registration changes");
             kani::cover!(t.data.is_some(), "COVER c04 transfer with data");
             kani::cover!(t.data.is_none() && c.token_manager_type == TokenManagerType::LockUnlock, "COVER c04 transfer unlock");
             kani::cover!(c.token_manager_type == TokenManagerType::NativeInterchainToken, "COVER c04 transfer mint");
@@ -341,21 +341,21 @@ fn c04_execute_message_deploy() {
 
     if r.is_ok() {
         let hub: Option<String> = inst().pre(&DataKey::ItsHubAddress);
-        assert!(shim::internal_called("get_execute_params", &(sc.clone(), payload.clone())), "OBL C04.params_from_this_delivery");
-        assert!(hub == Some(sa.clone()), "OBL C04.hub_address_checked: the message comes from the configured hub address");
-        assert!(unsafe { GEP_OUT.is_some() }, "OBL C04.only_validated_params");
+        soroban_sdk::obl!(shim::internal_called("get_execute_params", &(sc.clone(), payload.clone())), "OBL C04.params_from_this_delivery");
+        soroban_sdk::obl!(hub == Some(sa.clone()), "OBL C04.hub_address_checked: the message comes from the configured hub address");
+        soroban_sdk::obl!(unsafe { GEP_OUT.is_some() }, "OBL C04.only_validated_params");
         let (_origin, message) = match unsafe { GEP_OUT.clone() } {
             Some(x) => x,
             None => (String { id: 0 }, symbolic_message()),
         };
         if let Message::DeployInterchainToken(d) = message {
-            assert!(!pers().pre_has(&cfg_key(&d.token_id)), "OBL C11.remote_deploy_needs_free_id: a remote deploy message for a taken id fails");
-            assert!(!d.name.is_empty() && !d.symbol.is_empty(), "OBL C04.deploy_needs_valid_metadata");
+            soroban_sdk::obl!(!pers().pre_has(&cfg_key(&d.token_id)), "OBL C11.remote_deploy_needs_free_id: a remote deploy message for a taken id fails");
+            soroban_sdk::obl!(!d.name.is_empty() && !d.symbol.is_empty(), "OBL C04.deploy_needs_valid_metadata");
             let wasm: Option<BytesN<32>> = inst().pre(&DataKey::InterchainTokenWasmHash);
             let dep = shim::deploy(0);
             let minter_word_present = dep.args.w[1] != 0;
             let minter_addr = Address(dep.args.w[2]);
-            assert!(
+            soroban_sdk::obl!(
                 match &d.minter {
                     None => !minter_word_present,
                     Some(mb) => minter_word_present && minter_addr.clone().to_xdr(&env) == *mb,
@@ -364,7 +364,7 @@ fn c04_execute_message_deploy() {
             );
             let minter = if minter_word_present { Some(minter_addr) } else { None };
             let md = TokenMetadata { name: d.name.clone(), symbol: d.symbol.clone(), decimal: d.decimals as u32 };
-            assert!(
+            soroban_sdk::obl!(
                 shim::n_deploys() == 1
                     && dep.deployer == me(&env).0
                     && BytesN::<32>([dep.salt[0], dep.salt[1], dep.salt[2], dep.salt[3], 0, 0, 0, 0]) == d.token_id
@@ -372,15 +372,15 @@ fn c04_execute_message_deploy() {
                     && dep.args == Words::of(&(me(&env), minter.clone(), d.token_id, md.clone())),
                 "OBL C11.remote_deploy_exact: one token deployed by the service at the address derived from (service, token id), from the configured code, constructed with (owner = service, designated minter, this id, the requested metadata)"
             );
-            assert!(
+            soroban_sdk::obl!(
                 pers().post::<_, TokenIdConfigValue>(&cfg_key(&d.token_id)) == Some(TokenIdConfigValue { token_address: Address(dep.address), token_manager_type: TokenManagerType::NativeInterchainToken })
                     && pers().changed_only(&[Words::of(&cfg_key(&d.token_id))])
                     && inst().n_changed() == 0,
                 "OBL C11.remote_deploy_registers_once: the id is registered to the deployed address as a service-deployed token; nothing else is written"
             );
-            assert!(shim::n_calls() == 1, "OBL C04.deploy_arm_moves_no_funds");
-            assert!(shim::n_calls() == 1, "OBL C11.remote_deploy_keeps_service_minter: the service makes no role call on the new token — it stays a minter (as owner) next to the designated minter");
-            assert!(
+            soroban_sdk::obl!(shim::n_calls() == 1, "OBL C04.deploy_arm_moves_no_funds");
+            soroban_sdk::obl!(shim::n_calls() == 1, "OBL C11.remote_deploy_keeps_service_minter: the service makes no role call on the new token — it stays a minter (as owner) next to the designated minter");
+            soroban_sdk::obl!(
                 shim::n_events() == 1 && shim::event_is(0, &(Symbol::new(&env, "interchain_token_deployed"), d.token_id, Address(dep.address), d.name.clone(), d.symbol.clone(), d.decimals as u32, minter.clone()), &Vec::<Val>::new(&env)),
                 "OBL C04.deployed_event_exact"
             );
@@ -404,12 +404,12 @@ fn c11_id_derivations() {
     let id = S::interchain_token_id(&env, deployer.clone(), salt);
     let s2 = S::canonical_token_deploy_salt(&env, token.clone());
 
-    assert!(Some(s1) == spec_deploy_salt(&env, &deployer, &salt), "OBL C11.deploy_salt_binds_chain_deployer_salt: keccak(xdr((\"interchain-token-salt\", keccak(xdr(chain name)), deployer, salt)))");
-    assert!(Some(s2) == spec_canonical_salt(&env, &token), "OBL C11.canonical_salt_binds_chain_and_token: keccak(xdr((\"canonical-token-salt\", keccak(xdr(chain name)), token address)))");
+    soroban_sdk::obl!(Some(s1) == spec_deploy_salt(&env, &deployer, &salt), "OBL C11.deploy_salt_binds_chain_deployer_salt: keccak(xdr((\"interchain-token-salt\", keccak(xdr(chain name)), deployer, salt)))");
+    soroban_sdk::obl!(Some(s2) == spec_canonical_salt(&env, &token), "OBL C11.canonical_salt_binds_chain_and_token: keccak(xdr((\"canonical-token-salt\", keccak(xdr(chain name)), token address)))");
     let expect_id: BytesN<32> = env.crypto().keccak256(&("its-interchain-token-id", deployer.clone(), salt).to_xdr(&env)).into();
-    assert!(id == expect_id, "OBL C11.token_id_binds_sender_salt: keccak(xdr((\"its-interchain-token-id\", sender, salt)))");
-    assert!(s1 != s2 && s1 != id && s2 != id, "OBL C11.domain_separated: the three derivations never collide (distinct prefixes)");
-    assert!(shim::no_effects() && shim::n_auth() == 0, "OBL C11.derivations_pure");
+    soroban_sdk::obl!(id == expect_id, "OBL C11.token_id_binds_sender_salt: keccak(xdr((\"its-interchain-token-id\", sender, salt)))");
+    soroban_sdk::obl!(s1 != s2 && s1 != id && s2 != id, "OBL C11.domain_separated: the three derivations never collide (distinct prefixes)");
+    soroban_sdk::obl!(shim::no_effects() && shim::n_auth() == 0, "OBL C11.derivations_pure");
     kani::cover!(true, "COVER c11 ids");
 }
 
@@ -426,13 +426,13 @@ fn c11_deploy_interchain_token() {
     let r = S::deploy_interchain_token(&env, caller.clone(), salt, md.clone(), supply, minter.clone());
 
     if let Ok(id) = r {
-        assert!(shim::authed(&caller), "OBL C07.deploy_needs_caller: a token is deployed under `caller`'s (deployer, salt) name only with the caller's authorisation");
+        soroban_sdk::obl!(shim::authed(&caller), "OBL C07.deploy_needs_caller: a token is deployed under `caller`'s (deployer, salt) name only with the caller's authorisation");
         let ds = spec_deploy_salt(&env, &caller, &salt);
-        assert!(matches!(ds, Some(s) if id == spec_token_id(&env, &s)), "OBL C11.local_deploy_id_deterministic: the id is the domain-separated function of (chain name, caller, salt)");
+        soroban_sdk::obl!(matches!(ds, Some(s) if id == spec_token_id(&env, &s)), "OBL C11.local_deploy_id_deterministic: the id is the domain-separated function of (chain name, caller, salt)");
         let wasm: Option<BytesN<32>> = inst().pre(&DataKey::InterchainTokenWasmHash);
         let dep = shim::deploy(0);
         let initial_minter = if supply > 0 { Some(me(&env)) } else { minter.clone() };
-        assert!(
+        soroban_sdk::obl!(
             shim::n_deploys() == 1
                 && dep.deployer == me(&env).0
                 && BytesN::<32>([dep.salt[0], dep.salt[1], dep.salt[2], dep.salt[3], 0, 0, 0, 0]) == id
@@ -441,8 +441,8 @@ fn c11_deploy_interchain_token() {
             "OBL C11.local_deploy_exact: one token deployed by the service at the address derived from (service, id), owned by the service, reporting this id and the requested metadata"
         );
         let token = Address(dep.address);
-        assert!(!(supply <= 0 && minter == Some(me(&env))), "OBL C11.service_not_designated_minter");
-        assert!(
+        soroban_sdk::obl!(!(supply <= 0 && minter == Some(me(&env))), "OBL C11.service_not_designated_minter");
+        soroban_sdk::obl!(
             if supply > 0 { shim::n_calls() >= 1 && shim::call_is(0, &token, "mint", &(caller.clone(), supply)) } else { shim::n_calls() == 0 },
             "OBL C11.initial_supply_to_deployer: the initial supply, if any, is credited to the deployer — and nothing is minted otherwise"
         );
@@ -466,24 +466,24 @@ fn c11_deploy_interchain_token() {
             i += 1;
         }
         if minter == Some(me(&env)) {
-            assert!(its_minter, "OBL C11.its_remains_minter_when_designated: when the service itself is the designated minter it still holds the minting right at the end");
+            soroban_sdk::obl!(its_minter, "OBL C11.its_remains_minter_when_designated: when the service itself is the designated minter it still holds the minting right at the end");
         } else {
-            assert!(its_minter, "OBL C11.its_remains_minter: the service never ends up without its minting right on a token it deployed");
+            soroban_sdk::obl!(its_minter, "OBL C11.its_remains_minter: the service never ends up without its minting right on a token it deployed");
         }
-        assert!(
+        soroban_sdk::obl!(
             match (&minter, supply > 0) {
                 (Some(m), true) => shim::call_is(shim::n_calls() - 1, &token, "add_minter", &(m.clone(),)),
                 _ => true,
             },
             "OBL C11.designated_minter_gets_role"
         );
-        assert!(
+        soroban_sdk::obl!(
             pers().post::<_, TokenIdConfigValue>(&cfg_key(&id)) == Some(TokenIdConfigValue { token_address: token.clone(), token_manager_type: TokenManagerType::NativeInterchainToken })
                 && pers().changed_only(&[Words::of(&cfg_key(&id))])
                 && inst().n_changed() == 0,
             "OBL C11.local_deploy_registers_once"
         );
-        assert!(
+        soroban_sdk::obl!(
             shim::n_events() == 1 && shim::event_is(0, &(Symbol::new(&env, "interchain_token_deployed"), id, token.clone(), md.name.clone(), md.symbol.clone(), md.decimal, initial_minter.clone()), &Vec::<Val>::new(&env)),
             "OBL C11.local_deploy_event"
         );
@@ -501,24 +501,24 @@ fn c11_register_canonical_token() {
     let cs = spec_canonical_salt(&env, &token);
     match r {
         Ok(id) => {
-            assert!(matches!(cs, Some(s) if id == spec_token_id(&env, &s)), "OBL C11.canonical_id_deterministic: the id is the domain-separated function of (chain name, token address)");
-            assert!(!pers().pre_has(&cfg_key(&id)), "OBL C11.register_needs_free_id: re-registering a taken id fails");
-            assert!(
+            soroban_sdk::obl!(matches!(cs, Some(s) if id == spec_token_id(&env, &s)), "OBL C11.canonical_id_deterministic: the id is the domain-separated function of (chain name, token address)");
+            soroban_sdk::obl!(!pers().pre_has(&cfg_key(&id)), "OBL C11.register_needs_free_id: re-registering a taken id fails");
+            soroban_sdk::obl!(
                 pers().post::<_, TokenIdConfigValue>(&cfg_key(&id)) == Some(TokenIdConfigValue { token_address: token.clone(), token_manager_type: TokenManagerType::LockUnlock })
                     && pers().changed_only(&[Words::of(&cfg_key(&id))])
                     && inst().n_changed() == 0,
                 "OBL C11.register_writes_once: the id maps to exactly this token as a lock/unlock token; nothing else is written"
             );
-            assert!(shim::n_calls() == 0 && shim::n_deploys() == 0, "OBL C11.register_moves_nothing");
-            assert!(
+            soroban_sdk::obl!(shim::n_calls() == 0 && shim::n_deploys() == 0, "OBL C11.register_moves_nothing");
+            soroban_sdk::obl!(
                 matches!(cs, Some(s) if shim::n_events() == 1 && shim::event_is(0, &(Symbol::new(&env, "interchain_token_id_claimed"), id, Address::zero(&env), s), &Vec::<Val>::new(&env))),
                 "OBL C11.register_event"
             );
             kani::cover!(true, "COVER c11 register ok");
         }
         Err(e) => {
-            assert!(e == ContractError::TokenAlreadyRegistered && matches!(cs, Some(s) if pers().pre_has(&cfg_key(&spec_token_id(&env, &s)))), "OBL C11.register_err_only_if_taken");
-            assert!(shim::no_effects(), "OBL C11.refused_register_no_effect");
+            soroban_sdk::obl!(e == ContractError::TokenAlreadyRegistered && matches!(cs, Some(s) if pers().pre_has(&cfg_key(&spec_token_id(&env, &s)))), "OBL C11.register_err_only_if_taken");
+            soroban_sdk::obl!(shim::no_effects(), "OBL C11.refused_register_no_effect");
             kani::cover!(true, "COVER c11 register err");
         }
     }
@@ -562,9 +562,9 @@ fn c11_deploy_needs_free_id() {
     let r = S::deploy_interchain_token(&env, caller.clone(), salt, md.clone(), 0, None);
 
     if let Ok(id) = r {
-        assert!(Some(id) == id_new, "OBL C11.local_deploy_id_deterministic");
-        assert!(!pers().pre_has(&cfg_key(&id)), "OBL C11.local_deploy_needs_free_id: deploying under an id that is already registered (as a service-deployed or as a canonical token) fails");
-        assert!(iits(false, &env, &witness), "OBL C11.registry_invariant_preserved: every registry entry stays either a token at its derived, occupied address or a canonical token under its canonical id");
+        soroban_sdk::obl!(Some(id) == id_new, "OBL C11.local_deploy_id_deterministic");
+        soroban_sdk::obl!(!pers().pre_has(&cfg_key(&id)), "OBL C11.local_deploy_needs_free_id: deploying under an id that is already registered (as a service-deployed or as a canonical token) fails");
+        soroban_sdk::obl!(iits(false, &env, &witness), "OBL C11.registry_invariant_preserved: every registry entry stays either a token at its derived, occupied address or a canonical token under its canonical id");
         kani::cover!(witness == id, "COVER c11 free id witness is new id");
         kani::cover!(witness != id, "COVER c11 free id other witness");
     }
@@ -579,7 +579,7 @@ fn c11_register_preserves_registry_invariant() {
     kani::assume(iits(true, &env, &witness));
     let r = S::register_canonical_token(&env, token.clone());
     if let Ok(id) = r {
-        assert!(iits(false, &env, &witness), "OBL C11.registry_invariant_preserved: every registry entry stays either a token at its derived, occupied address or a canonical token under its canonical id");
+        soroban_sdk::obl!(iits(false, &env, &witness), "OBL C11.registry_invariant_preserved: every registry entry stays either a token at its derived, occupied address or a canonical token under its canonical id");
         kani::cover!(witness == id, "COVER c11 register witness is new id");
         kani::cover!(witness != id, "COVER c11 register other witness");
     }
@@ -595,7 +595,7 @@ fn c11_remote_deploy_preserves_registry_invariant() {
     kani::assume(iits(true, &env, &witness));
     let r = S::execute_message(&env, String::symbolic(), String::symbolic(), String::symbolic(), Bytes::symbolic());
     if r.is_ok() {
-        assert!(iits(false, &env, &witness), "OBL C11.registry_invariant_preserved: every registry entry stays either a token at its derived, occupied address or a canonical token under its canonical id");
+        soroban_sdk::obl!(iits(false, &env, &witness), "OBL C11.registry_invariant_preserved: every registry entry stays either a token at its derived, occupied address or a canonical token under its canonical id");
         kani::cover!(true, "COVER c11 remote deploy inv ok");
     }
 }
@@ -608,8 +608,8 @@ fn c11_registry_views() {
     let a = S::token_address(&env, id);
     let t = S::token_manager_type(&env, id);
     let cfg: Option<TokenIdConfigValue> = pers().pre(&cfg_key(&id));
-    assert!(cfg == Some(TokenIdConfigValue { token_address: a, token_manager_type: t }), "OBL C11.views_agree_with_registry");
-    assert!(shim::no_effects() && shim::n_auth() == 0, "OBL C11.registry_views_pure");
+    soroban_sdk::obl!(cfg == Some(TokenIdConfigValue { token_address: a, token_manager_type: t }), "OBL C11.views_agree_with_registry");
+    soroban_sdk::obl!(shim::no_effects() && shim::n_auth() == 0, "OBL C11.registry_views_pure");
     kani::cover!(true, "COVER c11 views");
 }
 
@@ -628,14 +628,14 @@ fn c18_deploy_remote_interchain_token() {
 
     let r = S::deploy_remote_interchain_token(&env, caller.clone(), salt, chain.clone(), gas_token.clone());
 
-    assert!(r.is_err() || shim::authed(&caller), "OBL C07.remote_deploy_needs_caller: a remote deployment under `caller`'s (deployer, salt) name needs the caller's authorisation");
+    soroban_sdk::obl!(r.is_err() || shim::authed(&caller), "OBL C07.remote_deploy_needs_caller: a remote deployment under `caller`'s (deployer, salt) name needs the caller's authorisation");
     let ds = spec_deploy_salt(&env, &caller, &salt);
-    assert!(
+    soroban_sdk::obl!(
         matches!(ds, Some(s) if shim::n_calls() == 1 && shim::internal_called("deploy_remote_token", &(caller.clone(), s, chain.clone(), gas_token.clone()))),
         "OBL C18.salt_bound_to_caller: the token is looked up under the id derived from the caller's own (deployer, salt) pair; the caller is the gas payer"
     );
-    assert!(Some(r) == unsafe { DRT_RESULT }, "OBL C18.result_passed_through");
-    assert!(no_storage_change() && shim::n_events() == 0 && shim::n_deploys() == 0, "OBL C18.interchain_entry_delegates_only: the entry point registers nothing, emits nothing and moves nothing itself");
+    soroban_sdk::obl!(Some(r) == unsafe { DRT_RESULT }, "OBL C18.result_passed_through");
+    soroban_sdk::obl!(no_storage_change() && shim::n_events() == 0 && shim::n_deploys() == 0, "OBL C18.interchain_entry_delegates_only: the entry point registers nothing, emits nothing and moves nothing itself");
     kani::cover!(r.is_ok(), "COVER c18 remote interchain ok");
 }
 
@@ -651,12 +651,12 @@ fn c18_deploy_remote_canonical_token() {
     let r = S::deploy_remote_canonical_token(&env, token.clone(), chain.clone(), spender.clone(), gas_token.clone());
 
     let cs = spec_canonical_salt(&env, &token);
-    assert!(
+    soroban_sdk::obl!(
         matches!(cs, Some(s) if shim::n_calls() == 1 && shim::internal_called("deploy_remote_token", &(spender.clone(), s, chain.clone(), gas_token.clone()))),
         "OBL C18.canonical_salt_from_token_address: the token is looked up under the id derived from the canonical token's address; `spender` is the gas payer"
     );
-    assert!(Some(r) == unsafe { DRT_RESULT }, "OBL C18.canonical_result_passed_through");
-    assert!(no_storage_change() && shim::n_events() == 0 && shim::n_deploys() == 0, "OBL C18.canonical_entry_delegates_only: the entry point registers nothing (an unregistered token stays unregistered), emits nothing and moves nothing itself");
+    soroban_sdk::obl!(Some(r) == unsafe { DRT_RESULT }, "OBL C18.canonical_result_passed_through");
+    soroban_sdk::obl!(no_storage_change() && shim::n_events() == 0 && shim::n_deploys() == 0, "OBL C18.canonical_entry_delegates_only: the entry point registers nothing (an unregistered token stays unregistered), emits nothing and moves nothing itself");
     kani::cover!(r.is_ok(), "COVER c18 remote canonical ok");
 }
 
@@ -673,26 +673,26 @@ fn c18_deploy_remote_token() {
     let r = S::deploy_remote_token(&env, caller.clone(), deploy_salt, chain.clone(), gas_token.clone());
 
     if let Ok(id) = r {
-        assert!(id == spec_token_id(&env, &deploy_salt), "OBL C18.id_from_salt");
+        soroban_sdk::obl!(id == spec_token_id(&env, &deploy_salt), "OBL C18.id_from_salt");
         let cfg: Option<TokenIdConfigValue> = pers().pre(&cfg_key(&id));
-        assert!(cfg.is_some(), "OBL C18.only_registered_tokens: a remote deployment is requested only for a token already registered under that id");
+        soroban_sdk::obl!(cfg.is_some(), "OBL C18.only_registered_tokens: a remote deployment is requested only for a token already registered under that id");
         let c = cfg.unwrap_or(TokenIdConfigValue { token_address: Address(0), token_manager_type: TokenManagerType::LockUnlock });
-        assert!(
+        soroban_sdk::obl!(
             shim::called(&c.token_address, "name", &()) && shim::called(&c.token_address, "decimals", &()) && shim::called(&c.token_address, "symbol", &()),
             "OBL C18.metadata_is_the_tokens_own: name, decimals and symbol are asked of the registered token itself"
         );
         let (name, decimals, symbol): (String, u32, String) = (shim::ret_of(&c.token_address, "name"), shim::ret_of(&c.token_address, "decimals"), shim::ret_of(&c.token_address, "symbol"));
-        assert!(decimals <= 255 && !name.is_empty() && !symbol.is_empty(), "OBL C18.refuses_unrepresentable_metadata: empty name or symbol, or more than 255 decimals");
+        soroban_sdk::obl!(decimals <= 255 && !name.is_empty() && !symbol.is_empty(), "OBL C18.refuses_unrepresentable_metadata: empty name or symbol, or more than 255 decimals");
         let message = Message::DeployInterchainToken(TDeploy { token_id: id, name: name.clone(), symbol: symbol.clone(), decimals: decimals as u8, minter: None });
-        assert!(
+        soroban_sdk::obl!(
             shim::n_calls() == 5 && pgc_called(&caller, &chain, &message, &gas_token) && unsafe { PGC_RESULT_OK },
             "OBL C18.announces_true_id_and_metadata: a deploy message with exactly this id, the token's actual name, symbol and decimals, and no minter, toward the requested chain, with the stated gas payment from the payer"
         );
-        assert!(
+        soroban_sdk::obl!(
             shim::n_events() == 1 && shim::event_is(0, &(Symbol::new(&env, "token_deployment_started"), id, c.token_address.clone(), chain.clone(), name, symbol, decimals, None::<Address>), &Vec::<Val>::new(&env)),
             "OBL C18.deployment_started_event"
         );
-        assert!(no_storage_change() && shim::n_deploys() == 0, "OBL C18.moves_no_funds_and_writes_nothing: no token transfer, burn or mint by the service; only the gas payment (inside pay_gas_and_call_contract)");
+        soroban_sdk::obl!(no_storage_change() && shim::n_deploys() == 0, "OBL C18.moves_no_funds_and_writes_nothing: no token transfer, burn or mint by the service; only the gas payment (inside pay_gas_and_call_contract)");
         kani::cover!(true, "COVER c18 remote token ok");
     }
 }
@@ -701,7 +701,7 @@ fn c18_deploy_remote_token() {
 fn c18_validate_token_metadata() {
     let md = TokenMetadata { decimal: kani::any(), name: String::symbolic(), symbol: String::symbolic() };
     let r = validate_token_metadata(&md);
-    assert!(r.is_ok() == (md.decimal <= 255 && !md.name.is_empty() && !md.symbol.is_empty()), "OBL C18.metadata_validation_exact: accepted exactly when decimals <= 255 and name and symbol are non-empty");
+    soroban_sdk::obl!(r.is_ok() == (md.decimal <= 255 && !md.name.is_empty() && !md.symbol.is_empty()), "OBL C18.metadata_validation_exact: accepted exactly when decimals <= 255 and name and symbol are non-empty");
     kani::cover!(r.is_ok(), "COVER md ok");
     kani::cover!(r.is_err(), "COVER md err");
 }
@@ -720,14 +720,14 @@ fn c06_its_set_trusted_chain() {
     let was = pers().pre_has(&k);
     match r {
         Ok(()) => {
-            assert!(matches!(&owner, Some(o) if shim::authed(o)), "OBL C06.set_trusted_chain_needs_owner");
-            assert!(!was && pers().post_has(&k), "OBL C06.set_trusted_absent_to_present");
-            assert!(pers().changed_only(&[Words::of(&k)]) && inst().n_changed() == 0 && shim::n_calls() == 0, "OBL C06.set_trusted_frame");
-            assert!(shim::n_events() == 1 && shim::event_is(0, &(Symbol::new(&env, "trusted_chain_set"), chain.clone()), &Vec::<Val>::new(&env)), "OBL C06.set_trusted_event");
+            soroban_sdk::obl!(matches!(&owner, Some(o) if shim::authed(o)), "OBL C06.set_trusted_chain_needs_owner");
+            soroban_sdk::obl!(!was && pers().post_has(&k), "OBL C06.set_trusted_absent_to_present");
+            soroban_sdk::obl!(pers().changed_only(&[Words::of(&k)]) && inst().n_changed() == 0 && shim::n_calls() == 0, "OBL C06.set_trusted_frame");
+            soroban_sdk::obl!(shim::n_events() == 1 && shim::event_is(0, &(Symbol::new(&env, "trusted_chain_set"), chain.clone()), &Vec::<Val>::new(&env)), "OBL C06.set_trusted_event");
             kani::cover!(true, "COVER set trusted ok");
         }
         Err(e) => {
-            assert!(was && e == ContractError::TrustedChainAlreadySet && shim::no_effects(), "OBL C06.set_trusted_err_no_effect");
+            soroban_sdk::obl!(was && e == ContractError::TrustedChainAlreadySet && shim::no_effects(), "OBL C06.set_trusted_err_no_effect");
             kani::cover!(true, "COVER set trusted err");
         }
     }
@@ -744,14 +744,14 @@ fn c06_its_remove_trusted_chain() {
     let was = pers().pre_has(&k);
     match r {
         Ok(()) => {
-            assert!(matches!(&owner, Some(o) if shim::authed(o)), "OBL C06.remove_trusted_chain_needs_owner");
-            assert!(was && !pers().post_has(&k), "OBL C06.remove_trusted_present_to_absent");
-            assert!(pers().changed_only(&[Words::of(&k)]) && inst().n_changed() == 0 && shim::n_calls() == 0, "OBL C06.remove_trusted_frame");
-            assert!(shim::n_events() == 1 && shim::event_is(0, &(Symbol::new(&env, "trusted_chain_removed"), chain.clone()), &Vec::<Val>::new(&env)), "OBL C06.remove_trusted_event");
+            soroban_sdk::obl!(matches!(&owner, Some(o) if shim::authed(o)), "OBL C06.remove_trusted_chain_needs_owner");
+            soroban_sdk::obl!(was && !pers().post_has(&k), "OBL C06.remove_trusted_present_to_absent");
+            soroban_sdk::obl!(pers().changed_only(&[Words::of(&k)]) && inst().n_changed() == 0 && shim::n_calls() == 0, "OBL C06.remove_trusted_frame");
+            soroban_sdk::obl!(shim::n_events() == 1 && shim::event_is(0, &(Symbol::new(&env, "trusted_chain_removed"), chain.clone()), &Vec::<Val>::new(&env)), "OBL C06.remove_trusted_event");
             kani::cover!(true, "COVER remove trusted ok");
         }
         Err(e) => {
-            assert!(!was && e == ContractError::TrustedChainNotSet && shim::no_effects(), "OBL C06.remove_trusted_err_no_effect");
+            soroban_sdk::obl!(!was && e == ContractError::TrustedChainNotSet && shim::no_effects(), "OBL C06.remove_trusted_err_no_effect");
             kani::cover!(true, "COVER remove trusted err");
         }
     }
@@ -763,8 +763,8 @@ fn c04_is_trusted_chain_view() {
     let _h = shim::fresh_host();
     let chain = String::symbolic();
     let r = S::is_trusted_chain(&env, chain.clone());
-    assert!(r == pers().pre_has(&DataKey::TrustedChain(chain.clone())), "OBL C04.trusted_chain_view_agrees: a chain is reported trusted exactly while its entry is set");
-    assert!(shim::no_effects() && shim::n_auth() == 0, "OBL C04.trusted_chain_view_pure");
+    soroban_sdk::obl!(r == pers().pre_has(&DataKey::TrustedChain(chain.clone())), "OBL C04.trusted_chain_view_agrees: a chain is reported trusted exactly while its entry is set");
+    soroban_sdk::obl!(shim::no_effects() && shim::n_auth() == 0, "OBL C04.trusted_chain_view_pure");
     kani::cover!(r, "COVER trusted view true");
     kani::cover!(!r, "COVER trusted view false");
 }
@@ -777,13 +777,13 @@ fn c06_its_constructor_and_views() {
     let (hub, name) = (String::symbolic(), String::symbolic());
     let wasm: BytesN<32> = BytesN::symbolic();
     S::__constructor(env.clone(), owner.clone(), gateway.clone(), gas.clone(), hub.clone(), name.clone(), wasm);
-    assert!(inst().post::<_, Address>(&OWNER_KEY) == Some(owner), "OBL C06.its_ctor_owner");
-    assert!(
+    soroban_sdk::obl!(inst().post::<_, Address>(&OWNER_KEY) == Some(owner), "OBL C06.its_ctor_owner");
+    soroban_sdk::obl!(
         <S as AxelarExecutableInterface>::gateway(&env) == gateway && S::gas_service(&env) == gas && S::its_hub_address(&env) == hub && S::chain_name(&env) == name && S::interchain_token_wasm_hash(&env) == wasm,
         "OBL C06.its_ctor_settings_and_views"
     );
-    assert!(S::its_hub_chain_name(&env) == axelar(&env), "OBL C04.hub_chain_name_constant");
-    assert!(pers().n_changed() == 0 && shim::n_calls() == 0 && shim::n_events() == 0, "OBL C06.its_ctor_frame");
+    soroban_sdk::obl!(S::its_hub_chain_name(&env) == axelar(&env), "OBL C04.hub_chain_name_constant");
+    soroban_sdk::obl!(pers().n_changed() == 0 && shim::n_calls() == 0 && shim::n_events() == 0, "OBL C06.its_ctor_frame");
     kani::cover!(true, "COVER its ctor");
 }
 
